@@ -36,12 +36,16 @@ func (v *AlsoKnownAsValidator) Validate(p patch.Patch) error {
 		return fmt.Errorf("%s", err)
 	}
 
-	_, err = getRequiredArray(value)
+	arr, err := getRequiredArray(value)
 	if err != nil {
 		return fmt.Errorf("%s: %w", action, err)
 	}
 
 	uris := document.StringArray(value)
+
+	if err := allEntriesRead(len(uris), arr, "URIs", "strings"); err != nil {
+		return fmt.Errorf("%s: %w", action, err)
+	}
 
 	if err := validate(uris); err != nil {
 		return fmt.Errorf("%s: validate URIs: %w", action, err)
